@@ -102,3 +102,11 @@ Proof. induction n; simpl; congruence. Qed.
 
 Lemma rev_repeat {A} (x : A) n : rev (repeat x n) = repeat x n.
 Proof. induction n; simpl; auto. rewrite IHn. apply repeat_app_one. Qed.
+
+Lemma skipn_skipn {A} x y (l : list A) : skipn x (skipn y l) = skipn (x + y) l.
+Proof.
+  revert l; induction y as [|y IH]; intros l.
+  - rewrite Nat.add_0_r. reflexivity.
+  - destruct l as [|a l]; [rewrite !skipn_nil; reflexivity|].
+    rewrite Nat.add_succ_r. cbn [skipn]. apply IH.
+Qed.
